@@ -223,6 +223,9 @@ func (g *Gen) Atom(depth int) Expr {
 			}
 		}
 		l := LHS{Kind: "count", Sym: core.Pick(r, []string{setLhs[g.Store][0].path, setLhs[g.Store][1].path})}
+		if r.P(0.4) {
+			l.Sym = core.Pick(r, setLhs[g.Store]).path // dotted sets too: one element per related entity and value
+		}
 		if depth > 0 && r.P(0.5) {
 			l = LHS{Kind: "count", Sub: g.SubQ(depth - 1)}
 		}
@@ -230,6 +233,9 @@ func (g *Gen) Atom(depth int) Expr {
 	case x < 0.88: // isEmpty
 		if depth > 0 && r.P(0.5) {
 			return IsEmpty{Sub: g.SubQ(depth - 1)}
+		}
+		if r.P(0.3) {
+			return IsEmpty{Sym: core.Pick(r, setLhs[g.Store]).path}
 		}
 		return IsEmpty{Sym: core.Pick(r, []string{setLhs[g.Store][0].path, setLhs[g.Store][1].path})}
 	case x < 0.94:
